@@ -127,3 +127,47 @@ Proof.
 Qed.
 
 End Slicing.
+
+(* ---------- STOP / interrupt, then CONT ---------- *)
+Section Cont.
+Variable O : oracle.
+
+(* a STOP, an error or ?BREAK inside the program: the error path of execute() saves the state and the address of the next
+   instruction in the continuation slot and leaves stack and variables alone (unless the stack is nearly full) *)
+Theorem break_saves : forall r2 er r' e st, r_state r2 = st -> running_state st = true -> st = StRunning ->
+  r_pc r2 < r_entry r2 -> stack_is_full r2 = false ->
+  match r_state r2 with
+  | StInputRunning =>
+      let '(s, a) := unwind_input (r_stack r2) in
+      let r3 := set_stack r2 s in
+      let r4 := match a with Some addr => set_pc r3 addr | None => r3 end in
+      Ok (set_state r4 StInputRedo, EvRunning)
+  | st =>
+      let r3 := set_cont_pc (set_cont (set_state r2 (StRuntimeError (in_line er (cur_line r2)))) st) (r_pc r2) in
+      let r4 := if (r_entry r3 <=? r_pc r3) || stack_is_full r3 then set_cont (set_stack r3 []) StStopped else r3 in
+      Ok (r4, EvRunning)
+  end = Ok (r', e) ->
+  r_cont r' = StRunning /\ r_cont_pc r' = r_pc r2 /\ r_stack r' = r_stack r2 /\ r_vars r' = r_vars r2 /\ r_pc r' = r_pc r2
+  /\ r_prog r' = r_prog r2 /\ r_listing r' = r_listing r2.
+Proof.
+  intros r2 er r' e st Hst _ -> Hpc Hfull E. rewrite Hst in E. cbn zeta in E.
+  cbn [r_entry r_pc set_cont_pc set_cont set_state] in E.
+  destruct (N.leb_spec (r_entry r2) (r_pc r2)); [lia |]. cbn [orb] in E.
+  assert (Hf : stack_is_full (set_cont_pc (set_cont (set_state r2 (StRuntimeError (in_line er (cur_line r2)))) StRunning) (r_pc r2)) = false) by exact Hfull.
+  rewrite Hf in E. injection E as <- _. cbn. repeat split; reflexivity.
+Qed.
+
+(* CONT: the saved state and address come back, the slot is emptied, nothing else is touched *)
+Theorem cont_restores : forall r st, r_cont r = st -> is_stopped st = false -> r_state r = StRunning ->
+  fst (do_cont r) = set_pc (set_cont (set_state r st) StStopped) (r_cont_pc r)
+  /\ snd (do_cont r) = Ok (if is_running st then None else Some EvRunning).
+Proof.
+  intros r st Hc Hs Hr. unfold do_cont, rbind, rget. rewrite Hc, Hs, Hr. cbn [is_running rmod].
+  cbn [r_cont r_cont_pc r_state set_pc set_cont set_state]. rewrite Hc. destruct (is_running st); split; reflexivity.
+Qed.
+
+(* and with an empty slot CONT is refused *)
+Theorem cont_refused : forall r, r_cont r = StStopped -> do_cont r = (r, err E_CantContinue).
+Proof. intros r H. unfold do_cont, rbind, rget. rewrite H. reflexivity. Qed.
+
+End Cont.
